@@ -1,20 +1,22 @@
 /-
 M.Mw — model of the middleware machinery of crux_http as it exists in /repo:
 
-  * `Next::run`            crux_http/src/middleware.rs:109-117   (`run`, structural recursion over the stack)
+  * `Next::run`            crux_http/src/middleware.rs:110-117   (`run`, structural recursion over the stack)
   * `Client::send`         crux_http/src/client.rs:99-136        (`send`: client stack ++ request stack, then the endpoint;
                                                                   the client handed to middleware has an empty stack)
   * the endpoint closure   crux_http/src/client.rs:113-124       (`endpoint`: one `HttpRequest` effect, the shell's answer)
   * `Redirect::handle`     crux_http/src/middleware/redirect.rs:80-131 (`redirectStep`, `redirectLoop`)
   * `Response::new`        crux_http/src/response/response.rs:26-47   (`classify`: 4xx/5xx become `HttpError::Http`)
-  * `RequestBuilder::send` / `IntoFuture`  crux_http/src/request_builder.rs:398-446  (`Api.send`, `Api.async`)
-  * command `RequestBuilder::build`        crux_http/src/command.rs:604-625         (`Api.cmd`: no middleware is run)
+  * `RequestBuilder::send` / `IntoFuture`  crux_http/src/request_builder.rs:399-460  (`Api.send`, `Api.async`)
+  * command `RequestBuilder::build`        crux_http/src/command.rs:583-609         (`Api.cmd`: no middleware is run)
 
 URLs and Location values are opaque strings; `url::Url::parse` and `Url::join` are the parameters
 `World.parse` / `World.join` (partial: `none` = the case line did not supply the entry ⇒ `Err.missing`).
 The shell is a function of the URL (`World.srv`).
 
 The middleware kinds are the ones harness/src/bin/mw.rs implements against the real `Middleware` trait.
+Client middleware exists in the code (`Client::with`, client.rs:93-98, `pub(crate)`); the harness installs it through
+the cfg(crux_verif) hook `Http::verif_with_client_middleware` (lib.rs:48-54). The command API has no client.
 `fixed = false` is redirect.rs as it is (a relative Location is joined to `base_url`, which is only updated by
 absolute Locations); `fixed = true` is redirect.rs with the one-line repair (`base_url` := the joined URL).
 -/
@@ -102,7 +104,7 @@ inductive Step where
   | next (req : Req) (base : Url)
 deriving DecidableEq, Repr
 
-/-- One iteration of the `while` of redirect.rs:104-128 after the probe `client.send(req.clone())` came back. -/
+/-- One iteration of the `while` of redirect.rs:104-127 after the probe `client.send(req.clone())` came back. -/
 def redirectStep (w : World) (fixed : Bool) (req : Req) (base : Url) : Step :=
   match w.srv req.url with
   | .err e => .stop (.err e)                                   -- `client.send(r).await?`
@@ -122,7 +124,7 @@ def redirectStep (w : World) (fixed : Bool) (req : Req) (base : Url) : Step :=
         | some .bad => .stop (.err .url)                       -- `e => return Err(e.into())`
     else .stop (.ok req)                                       -- `break`
 
-/-- redirect.rs:104-128: `n` = attempts left. Every iteration sends one body-less clone straight to the endpoint
+/-- redirect.rs:104-127: `n` = attempts left. Every iteration sends one body-less clone straight to the endpoint
     (the client handed to a middleware has an empty stack, client.rs:126-132). -/
 def redirectLoop (w : World) (fixed : Bool) : Nat → Req → Url → Trace × LoopRes
   | 0, req, _ => ([], .ok req)
@@ -145,7 +147,7 @@ def issued (w : World) (fixed : Bool) (u : Url) : Option Nat → Trace × Res
     | (t, .err e) => (t, .err e)
     | (t, .ok r) => (t ++ (endpoint w r).1, (endpoint w r).2)
 
-/-- middleware.rs:109-117 `Next::run` with the `handle` of each middleware kind inlined. -/
+/-- middleware.rs:110-117 `Next::run` with the `handle` of each middleware kind inlined. -/
 def run (w : World) (fixed : Bool) : List Mw → Req → Trace × Res
   | [], req => endpoint w req
   | .pass k :: rest, req =>
@@ -201,6 +203,6 @@ def runCase (w : World) (fixed : Bool) (api : Api) (client stack : List Mw) (req
   match api with
   | .send => let p := send w fixed client stack req; (p.1, classify p.2)
   | .async => let p := send w fixed client stack req; (p.1, rawOutcome p.2)
-  | .cmd => let p := endpoint w req; (p.1, classify p.2)      -- command.rs:604-625: `req.middleware` is never read
+  | .cmd => let p := endpoint w req; (p.1, classify p.2)      -- command.rs:583-609: `req.middleware` is never read
 
 end M.Mw
